@@ -51,7 +51,7 @@ def conns_key(o):
 def hypothetical(W, entry, peer_str, r):
     """a world = W + one pod satisfying the entry's selectors (+ a namespace object when a new namespace is needed); None if not constructible"""
     W2 = copy.deepcopy(W)
-    nss = {n['name']: dict(n['labels']) for n in W['namespaces']}
+    nss = {n['name']: (dict(n['labels']) if n['obj'] else {}) for n in W['namespaces']}   # labels exist only if the Namespace object is part of the input
     for w in W['workloads']:
         nss.setdefault(w['ns'], {})
     for p in W['netpols']:
